@@ -51,6 +51,9 @@
 (define-fun gs.at ((s Str) (i Int)) Int (sbyte (sbase s) (+ (slo s) i)))
 (define-fun gs.sub ((s Str) (i Int) (j Int)) Str (mkstr (sbase s) (+ (slo s) i) (+ (slo s) j)))
 (define-fun gs.wf ((s Str)) Bool (and (<= 0 (slo s)) (<= (slo s) (shi s)) (<= (shi s) (blen (sbase s))) (<= (blen (sbase s)) 1099511627776)))
+(declare-fun gs.byteat (Str Int) Int) ; byte i of a window, as a function symbol (a trigger without arithmetic for quantified clauses)
+; @section byteat gs.byteat
+(assert (forall ((s Str) (i Int)) (! (= (gs.byteat s i) (sbyte (sbase s) (+ (slo s) i))) :pattern ((gs.byteat s i)))))
 ; @section bytes sbyte gs.at blen gs.wf gs.len
 (assert (forall ((b Int) (i Int)) (! (and (<= 0 (sbyte b i)) (<= (sbyte b i) 255)) :pattern ((sbyte b i)))))
 (assert (forall ((b Int)) (! (and (<= 0 (blen b)) (<= (blen b) MaxInt)) :pattern ((blen b)))))
